@@ -23,6 +23,7 @@ def build():
     class Child(Parent):
         d: float = Option("EXTRA.D", 0.5)
         e: str = "const"
+        ab: int = Option("AB", 7)        # a key that has another reported key ("A") as a plain string prefix
     return Parent, Child, ds
 
 
@@ -36,7 +37,7 @@ def check(o1, o2, order):
             cls.keys(o1)
         except Exception:  # noqa
             pass
-    for cls, members in ((Parent, {"a": ds, "b": None, "nested": None}), (Child, {"a": ds, "b": None, "nested": None, "d": None})):
+    for cls, members in ((Parent, {"a": ds, "b": None, "nested": None}), (Child, {"a": ds, "b": None, "nested": None, "d": None, "ab": None})):
         try:
             inst = cls(copy.deepcopy(o1))
         except Exception as e:  # noqa
@@ -45,18 +46,18 @@ def check(o1, o2, order):
             continue
         want = {"a": ("ds", o1["A"]), "b": o1.get("B", 1), "c": True, "nested": o1.get("S", {}).get("X", 0)}
         if cls is Child:
-            want.update({"d": o1.get("EXTRA", {}).get("D", 0.5), "e": "const"})
+            want.update({"d": o1.get("EXTRA", {}).get("D", 0.5), "e": "const", "ab": o1.get("AB", 7)})
         for k, v in want.items():
             if getattr(inst, k) != v:
                 msgs.append(f"{cls.__name__}({o1}).{k} = {getattr(inst, k)!r}, expected {v!r}")
         ks = cls.keys(o1)
         union = set()
-        for name in ("a", "b", "nested") + (("d",) if cls is Child else ()):
-            m = {"a": ds, "b": Option_("B", 1), "nested": Option_("S.X", 0), "d": Option_("EXTRA.D", 0.5)}[name]
+        for name in ("a", "b", "nested") + (("d", "ab") if cls is Child else ()):
+            m = {"a": ds, "b": Option_("B", 1), "nested": Option_("S.X", 0), "d": Option_("EXTRA.D", 0.5), "ab": Option_("AB", 7)}[name]
             union |= m.keys(o1)
         if ks != union:
             msgs.append(f"{cls.__name__}.keys({o1}) = {sorted(ks)}, union over members = {sorted(union)} (order={order})")
-        if cls.explain(o1) != {k for name in ("a", "b", "nested") + (("d",) if cls is Child else ()) for k in {"a": ds, "b": Option_("B", 1), "nested": Option_("S.X", 0), "d": Option_("EXTRA.D", 0.5)}[name].explain(o1)}:
+        if cls.explain(o1) != {k for name in ("a", "b", "nested") + (("d", "ab") if cls is Child else ()) for k in {"a": ds, "b": Option_("B", 1), "nested": Option_("S.X", 0), "d": Option_("EXTRA.D", 0.5), "ab": Option_("AB", 7)}[name].explain(o1)}:
             msgs.append(f"{cls.__name__}.explain({o1}) is not the union over members (order={order})")
         # the instance is a snapshot: mutating the dictionary it was built from afterwards changes neither ==, repr nor its members
         live = copy.deepcopy(o1)
@@ -88,7 +89,7 @@ def Option_(*a, **k):
 
 
 DICTS = [{"A": 1}, {"A": 1, "B": 2}, {"A": 1, "S": {"X": 1}}, {"A": 1, "S": {"X": 2}}, {"A": 1, "EXTRA": {"D": 1.5}}, {"A": 1, "EXTRA": {"D": 2.5}},
-         {"A": 2, "UNUSED": 1}, {"A": 1, "UNUSED": 5}]
+         {"A": 2, "UNUSED": 1}, {"A": 1, "UNUSED": 5}, {"A": 1, "AB": 3}, {"A": 1, "AB": 4}]
 
 
 def replay(case):
